@@ -54,13 +54,14 @@ TEXT_RULE = {
     'sym': 'the NamedSymbol contract the model rests on, all 256 pairs over ids {0,1,2,7} x names {a, b, empty, non-ASCII}: == and cmp / partial_cmp decided by the id alone, equal symbols hash alike (std hasher and the FxHash of a node), nodes over equal symbols are equal, into usize is the id, Display is the name',
     'evalx': 'two separately parsed formulas (two environments) combined by and / or / eq / xor / implies / ite of either environment: 12 fixed pairs and seeded random pairs - the same structure under two spellings of the same ids (p,q,x / req,ack,busy / x,p,q) or unrelated formulas over overlapping ids; seven result diagrams compared',
     'evalid': 'API orderings with arbitrary ids: 8 formula templates x 6 id layouts with one id SOLVED so that the two children of one node are different diagrams with the same FxHash (the words fed to the hasher are recorded and the FxHasher replayed; kept only when the real get_hash confirms the collision; about 30 orderings, each also inside a conjunction and under a negation), plus seeded random formulas over 6 names under random listings with ids near 0, near usize::MAX, powers of two and random 64-bit values; the evaluated diagram and its conversion to BDD<usize> are compared in rank space with the model under the order-isomorphic small ids, and BY NAME with the default-order answer',
+    'evallong': 'text handling beyond short inputs, tokenized and evaluated: 4095..70000 blanks / newlines / comment characters before, inside and after a formula; identifiers of 255..5000 characters; CRLF, lone CR, byte order mark, tab, form feed, NBSP, U+2028, zero-width space, combining accents, NUL; open, empty and adjacent comments; counting constants with leading zeros, signs, separators, 2^64-1 and 2^64, non-ASCII digits; nesting depth 10..200 (thorough 400) of brackets, negations, binders, lists, if-then-else',
     'evalc': 'counting grid: 5 comparisons x 10 constants (0..4, 2^63-2 .. 2^63, 2^64-2, 2^64-1) x 6 operand lists, 5x5 list-vs-list grid; plus seeded random formulas containing a counting comparison',
     'evalfp': '23 hand-picked fixed-point formulas (identity, constants, divergent negation, chains through quantifiers, nested/mixed lfp-gfp, shadowing by quantifier and by inner fixed point, counting, ite); plus seeded random formulas containing lfp/gfp over 3 names, 3/4 monotone by construction, 1/4 arbitrary',
 }
 
 
 def text(parts, exhaustive=True):
-    ops = {'tok': ['tok'], 'parse': ['parse'], 'eval': ['eval'], 'evalc': ['eval'], 'evalfp': ['eval'], 'evalord': ['eval'], 'evalwide': ['eval'], 'evalq': ['eval'], 'evalshadow': ['eval'], 'sym': ['sym'], 'evalx': ['evalx'], 'evalid': ['evalid']}
+    ops = {'tok': ['tok'], 'parse': ['parse'], 'eval': ['eval'], 'evalc': ['eval'], 'evalfp': ['eval'], 'evalord': ['eval'], 'evalwide': ['eval'], 'evalq': ['eval'], 'evalshadow': ['eval'], 'sym': ['sym'], 'evalx': ['evalx'], 'evalid': ['evalid'], 'evallong': ['tok', 'eval']}
     return dict(suite='text', parts=parts, profile='release', exhaustive=exhaustive,
                 corpus_ops=sorted(set(o for p in parts for o in ops[p])),
                 rule='; '.join('%s: %s' % (p, TEXT_RULE[p]) for p in parts))
@@ -100,14 +101,21 @@ def gen(parts):
                 rule='; '.join('%s: %s' % (p, GEN_RULE[p]) for p in parts))
 
 
+def dbg(spec):
+    """the same suite against a debug build of the library (overflow checks and debug assertions on)"""
+    d = dict(spec)
+    d.update(profile='debug', exhaustive=False, rule='debug build of the library (overflow checks, debug assertions): ' + spec['rule'])
+    return d
+
+
 PROPS = {
     'C02': dict(suites=[bdd(['conn', 'quant', 'count', 'fp', 'model', 'retain', 'clean', 'mixed', 'wide']), text(['sym', 'evalx', 'evalid'], exhaustive=False)]),
-    'C01': dict(suites=[text(['tok', 'parse', 'eval', 'evalfp', 'evalwide', 'evalq', 'evalshadow'])]),
-    'C08': dict(suites=[text(['tok', 'parse'])]),
+    'C01': dict(suites=[text(['tok', 'parse', 'eval', 'evalfp', 'evalwide', 'evalq', 'evalshadow', 'evallong'])]),
+    'C08': dict(suites=[text(['tok', 'parse', 'evallong'])]),
     'C09': dict(suites=[text(['eval', 'evalwide', 'evalshadow'])]),
     'C10': dict(suites=[cli(['grid', 'order', 'size', 'shadow', 'names', 'env', 'random'])]),
     'C11': dict(suites=[cli(['order', 'names', 'random']), text(['evalord', 'evalid', 'sym'])]),
-    'C12': dict(suites=[cli(['robustlib', 'robustbin', 'grid', 'size'])]),
+    'C12': dict(suites=[cli(['robustlib', 'robustbin', 'grid', 'size']), text(['evallong'], exhaustive=False), dbg(cli(['robustlib'])), dbg(text(['evallong', 'evalc']))]),
     'C19': dict(suites=[dict(suite='set', parts=[], profile='release', exhaustive=True,
                              rule='complete BFS over all 256 reachable pairs of reference states of two 2-bit sets sharing an environment x all 32 next operations (insert, contains per element; union, intersect, complement for all four operand pairs incl. the same set twice; empty; universe), each followed by all 8 membership queries twice; plus seeded random histories of <=25 operations over 1..5 bits ending in a full membership sweep; answers and both final diagrams are compared')]),
     'C13': dict(lint='c13', suites=[dict(suite='hist', parts=[], profile='release', exhaustive=True,
@@ -123,7 +131,7 @@ PROPS = {
     'C18': dict(suites=[gen(['graph'])]),
     'C03': dict(suites=[bdd(['conn', 'wide'])]),
     'C04': dict(suites=[bdd(['quant', 'wide']), text(['evalq', 'evalfp'])]),
-    'C05': dict(suites=[bdd(['count', 'wide']), text(['evalc'])]),
+    'C05': dict(suites=[bdd(['count', 'wide']), text(['evalc']), dbg(bdd(['count'])), dbg(text(['evalc']))]),
     'C06': dict(suites=[bdd(['fp']), text(['evalfp', 'evalshadow'], exhaustive=False)]),
     'C07': dict(suites=[bdd(['model', 'wide']), cli(['grid'])]),
     'C20': dict(suites=[bdd(['retain', 'wide']), cli(['grid', 'env'])]),
